@@ -238,3 +238,41 @@ func VerifC07_ConcurrentFirstReports() {
 	zz.Assert(max == seed || r1 || r2, "some report that advanced the mark wins")
 	zz.Reach("done")
 }
+
+// VerifC07_ConcurrentCAS3 (thorough): three racing reporters on a seeded cache.
+//
+//verif:tier thorough
+//verif:opts preempt sched=12 fuel=10 part0=8 part1=2 preemptfn=(*github.com/filecoin-project/go-data-transfer/v2/channels.blockIndexCache).updateIfGreater
+func VerifC07_ConcurrentCAS3() {
+	bic := newBlockIndexCache()
+	chid := datatransfer.ChannelID{Initiator: peerID("a"), Responder: peerID("b"), ID: 1}
+	seed := zz.Int64("seed")
+	read := func(datatransfer.ChannelID) (int64, error) { return seed, nil }
+	_, _ = bic.updateIfGreater(datatransfer.DataSent, chid, seed, read)
+	idx := [3]int64{zz.Int64("i1"), zz.Int64("i2"), zz.Int64("i3")}
+	var res [3]bool
+	done := make(chan struct{}, 3)
+	for k := 0; k < 3; k++ {
+		k := k
+		go func() { res[k], _ = bic.updateIfGreater(datatransfer.DataSent, chid, idx[k], read); done <- struct{}{} }()
+	}
+	<-done
+	<-done
+	<-done
+	final, _ := bic.getValue(datatransfer.DataSent, chid, read)
+	max := seed
+	for k := 0; k < 3; k++ {
+		if idx[k] > max {
+			max = idx[k]
+		}
+	}
+	zz.Assert(*final == max, "high-water mark ends at the maximum")
+	for a := 0; a < 3; a++ {
+		zz.Assert(!res[a] || idx[a] > seed, "a report wins only if it is above the seed")
+		for b := a + 1; b < 3; b++ {
+			zz.Assert(!(idx[a] == idx[b] && res[a] && res[b]), "equal positions are counted at most once")
+		}
+	}
+	zz.Assert(max == seed || res[0] || res[1] || res[2], "some report that advanced the mark wins")
+	zz.Reach("done")
+}
